@@ -234,6 +234,8 @@ class Ent(Engine):
     def gen(self, rng, tier):
         n = 1300 if tier == 'quick' else 30000
         ub_budget = 3 if tier == 'quick' else 12      # each one costs a symbolised sanitizer report (~1 s)
+        per_process = 10 if tier == 'quick' else 30   # histories per forked harness process, separated by `reset`
+        batch, nb = [], 0
         for i in range(n):
             g = Gen(rng)
             ops = []
@@ -251,11 +253,19 @@ class Ent(Engine):
                         o = 'c:' + o
                     ops.append(o)
             if ub_budget > 0 and rng.random() < 0.03:
-                # the recorded finding: FIX_NS overflow kills the process; placed last so the rest of the case counts
+                # the recorded finding: FIX_NS overflow kills the process, so such a history is a case of its own
                 ub_budget -= 1
                 ops.append(g.ub_time_op() if rng.random() < 0.7 else 'copy_stat ' + g.stat_args(allow_ub=True))
                 ops.append('stat')
-            yield Case(f'rand{i}', ops)
+                yield Case(f'rand-ub{i}', ops)
+                continue
+            batch += ops + ['reset']
+            nb += 1
+            if nb == per_process:
+                yield Case(f'rand{i}', batch)
+                batch, nb = [], 0
+        if batch:
+            yield Case('rand-last', batch)
         # stale struct-stat cache: stat, one field setter, stat again (every setter that must invalidate the cache)
         ops = []
         for st in STAT_SETTERS:
@@ -403,9 +413,19 @@ class Ent(Engine):
     def stats(self, cases, impl):
         st = {'ops': {}, 'ops_on_clone': 0, 'clone_points': 0, 'undefined_fixns_cases': 0, 'sparse_merges': 0,
               'sparse_whole_file_dropped': 0, 'strings': {'null': 0, 'empty': 0, 'ascii': 0, 'non_ascii': 0},
-              'hist_len': {}}
+              'histories': 0, 'hist_len': {}}
         for c, im in zip(cases, impl):
-            st['hist_len'][len(c.ops)] = st['hist_len'].get(len(c.ops), 0) + 1
+            # a case (one harness process) holds several histories separated by `reset`
+            cur = 0
+            for o in c.ops + ['reset']:
+                if o == 'reset':
+                    if cur:
+                        st['histories'] += 1
+                        b = min(cur, 40)
+                        st['hist_len'][b] = st['hist_len'].get(b, 0) + 1
+                    cur = 0
+                else:
+                    cur += 1
             if any(l.startswith('!') for l in im):
                 st['undefined_fixns_cases'] += 1
             prev = None
